@@ -616,7 +616,9 @@ func (vc *VC) stringConcat(a, b Val, st *State, t types.Type) Val {
 	vc.strKeys[id.id] = App("u_cat", SInt, vc.stringKey(a), vc.stringKey(b))
 	sm := vc.strMem()
 	k := vc.fresh("k", SInt)
-	vc.assume(Forall([]*Term{k}, Implies(And(Le(Zero, k), Lt(k, n)),
+	// path-conditioned: the string memory is one global immutable array and the id is this PATH's allocation counter, so two
+	// exclusive branches may name the same id - an unconditional fact per branch would make them contradict each other
+	vc.assumeAt(st, Forall([]*Term{k}, Implies(And(Le(Zero, k), Lt(k, n)),
 		Eq(Select(Select(sm, id), k), Ite(Lt(k, a.C[2]), Select(Select(sm, a.C[0]), Add(a.C[1], k)),
 			Select(Select(sm, b.C[0]), Add(b.C[1], Sub(k, a.C[2]))))))))
 	return mkVal(t, id, Zero, n)
@@ -1082,7 +1084,7 @@ func (vc *VC) convertTo(v Val, t types.Type, st *State, n ast.Node) Val {
 		et := elemTypeOf(v.T)
 		h := vc.heap(st, heapNameFor(et, layout(et)[0]), heapSort(layout(et)[0]))
 		k := vc.fresh("k", SInt)
-		vc.assume(Forall([]*Term{k}, Implies(And(Le(Zero, k), Lt(k, v.Len())),
+		vc.assumeAt(st, Forall([]*Term{k}, Implies(And(Le(Zero, k), Lt(k, v.Len())),
 			Eq(Select(Select(sm, id), k), Select(Select(h, v.Arr()), Add(v.Off(), k))))))
 		if o, ok := vc.origins[v.C[0].id]; ok && v.C[1] == Zero {
 			vc.origins[id.id] = o
